@@ -5,7 +5,6 @@ from __future__ import annotations
 
 import itertools
 import json
-import os
 from typing import Any, Dict, List, Optional
 
 from ..core import worker as wk
@@ -367,36 +366,13 @@ def compare(ctx: Ctx, sc: dict, iv: dict, m: dict, T: Optional[float] = None) ->
 FLAGS: Dict[str, dict] = {}
 
 
-def parallelism(most: int) -> int:
-    """scenario processes side by side: what the machine has to spare right now (the verdict does not depend on it)"""
-    try:
-        spare = (os.cpu_count() or 4) - os.getloadavg()[0]
-    except OSError:
-        spare = most
-    return max(1, min(most, max(4, int(spare))))
-
-
 def evaluate(ctx: Ctx, scs: List[dict], procs: int = 14) -> None:
     flags = FLAGS.get("v") or FLAGS.setdefault("v", wk.probe_flags())
     ctx.extra["runtime_flags_measured"] = flags
     if not ctx.extra.get("runtime_constants_checked"):
         ctx.extra["runtime_constants_checked"] = True
         wk.check_runtime_constants(ctx, flags)
-    obs = wk.run_many(scs, procs=parallelism(procs))
-    # timing discipline: a run in which the harness itself was late (client step, trigger, or the application had not reached
-    # the phase the scenario names when the trigger was due: a busy machine) is not the scenario as written.  It is repeated,
-    # with less running beside it, at most twice - a decision taken on the harness's own lateness records only, before and
-    # independent of any monitor; the last observation is judged whatever its timing
-    for attempt, width in ((1, 4), (2, 1)):
-        again = [i for i, o in enumerate(obs) if wk.events_of(o, "harness_late")]
-        if not again:
-            break
-        ctx.count("repeated_for_harness_lateness", f"attempt {attempt}", len(again))
-        for i, o in zip(again, wk.run_many([scs[i] for i in again], procs=width)):
-            obs[i] = o
-    left = sum(1 for o in obs if wk.events_of(o, "harness_late"))
-    if left:
-        ctx.count("judged_despite_harness_lateness", "scenarios", left)
+    obs = wk.run_disciplined(ctx, scs, procs)       # timing discipline: see worker.run_disciplined
     model = ctx.model([wk.model_request(sc, "c15.run", flags) for sc in scs])
     for i, (sc, o) in enumerate(zip(scs, obs)):
         iv = wk.impl_view(o)
